@@ -187,16 +187,17 @@ const MAX_LINES: usize = 24;
 const MAX_TASKS: usize = 400;
 
 fn parse_i32(s: &str) -> Option<i32> {
-    // same grammar as the Lean driver: optional '-', then 1..6 digits
+    // same grammar as the Lean driver: optional '-', then 1..10 digits, value in the range of `i32`
+    // (exit codes are `i32`: the whole range is the property's domain, not just small numbers)
     let (neg, d) = match s.strip_prefix('-') {
         Some(r) => (true, r),
         None => (false, s),
     };
-    if d.is_empty() || d.len() > 6 || !d.bytes().all(|b| b.is_ascii_digit()) {
+    if d.is_empty() || d.len() > 10 || !d.bytes().all(|b| b.is_ascii_digit()) {
         return None;
     }
-    let v: i32 = d.parse().ok()?;
-    Some(if neg { -v } else { v })
+    let v: i64 = d.parse().ok()?;
+    i32::try_from(if neg { -v } else { v }).ok()
 }
 
 fn parse_nat(s: &str) -> Option<usize> {
@@ -2401,7 +2402,7 @@ fn directed_c09(w: &mut dyn Write, rng: &mut Rng, thorough: bool) {
         let origins = origins_for(kinds);
         let picks: Vec<usize> = if thorough { (0..origins.len()).collect() } else { vec![ci % 3, (ci + 1 + rng.below(2)) % origins.len()] };
         for oi in picks {
-            let code = *rng.pick(&[0, 3, 7, -1]);
+            let code = *rng.pick(&[0, 3, 7, -1, 65536, i32::MIN]);
             let mut stops = vec![(origins[oi].clone(), code, "seq")];
             if n % 3 == 2 {
                 stops.push(("foreign".to_string(), 9, if n % 2 == 0 { "seq" } else { "race" }));
@@ -2415,7 +2416,9 @@ fn directed_c09(w: &mut dyn Write, rng: &mut Rng, thorough: bool) {
 
 /// codes that identify the stop they came from: all different within a scenario
 fn distinct_codes(rng: &mut Rng, n: usize, zero_first: bool) -> Vec<i32> {
-    let mut pool = vec![0, 1, 2, 3, 7, 9, -1, -3, 255, 42, -128];
+    // small codes, and codes that do not survive a narrower integer on the way: beyond 8 / 16 bits, multiples of
+    // 65 536 (whose low half is 0), the ends of the range
+    let mut pool = vec![0, 1, 2, 3, 7, 9, -1, -3, 255, 42, -128, 256, 32768, 65536, 70000, -65536, -40000, 1 << 20, i32::MAX, i32::MIN];
     let mut v = vec![];
     if zero_first {
         v.push(pool.remove(0));
@@ -2572,8 +2575,27 @@ fn directed_slow_c09(w: &mut dyn Write, rng: &mut Rng, thorough: bool) {
     }
 }
 
+/// Directed scenarios over the width of the exit code (both tiers, in front): `stop_with_code(c)` makes
+/// `run_with_code` return exactly `c` for every `i32`, and `run` fail for every non-zero one — also where a
+/// narrower integer on the way would have lost it.
+fn directed_codes_c09(w: &mut dyn Write, rng: &mut Rng, thorough: bool) {
+    let codes: &[i32] = if thorough {
+        &[65536, 32768, -32769, 70000, i32::MAX, i32::MIN, -65536, 1 << 20, 1 << 24, -(1 << 30), 256, -129, 131072, 2147418112, 65535]
+    } else {
+        &[65536, 32768, i32::MAX, i32::MIN, -131072, 70000]
+    };
+    for (i, c) in codes.iter().enumerate() {
+        let origin = ["sys-pre", "foreign", "sys-task", "arb:0"][i % 4];
+        writeln!(w, "case c{i} c09\narb running\nstop {origin} {c}\ngo {} j={}", if i % 2 == 0 { "run" } else { "code" }, rng.next() % 1_000_000).unwrap();
+    }
+    // two wide codes racing / in a row: the first one, exactly
+    writeln!(w, "case c{} c09\nstop foreign 65536\nstop sys-task 131072 race\ngo run j={}", codes.len(), rng.next() % 1_000_000).unwrap();
+    writeln!(w, "case c{} c09\narb busy\nbatch sys-pre s-65536 nr s2147483647\ngo code j={}", codes.len() + 1, rng.next() % 1_000_000).unwrap();
+}
+
 fn gen_c09(a: &Args, w: &mut dyn Write) {
     let mut rng = Rng::new(a.seed ^ 0xC09);
+    directed_codes_c09(w, &mut rng, a.tier == "thorough");
     directed_slow_c09(w, &mut rng, a.tier == "thorough");
     directed_batch_c09(w, &mut rng, a.tier == "thorough");
     directed_c09(w, &mut rng, a.tier == "thorough");
@@ -2616,7 +2638,7 @@ fn gen_c09(a: &Args, w: &mut dyn Write) {
             let kinds: Vec<usize> = (0..na).map(|_| rng.below(5)).collect();
             let origins = origins_for(&kinds);
             let o = rng.pick(&origins).clone();
-            let code = *rng.pick(&[0, 7, 7, -3, 255]);
+            let code = *rng.pick(&[0, 7, 7, -3, 255, 65536, 32768, i32::MAX, -131072]);
             let mut stops = vec![(o.clone(), code, "seq")];
             if rng.chance(1, 2) {
                 let o2 = rng.pick(&origins).clone();
@@ -2624,7 +2646,7 @@ fn gen_c09(a: &Args, w: &mut dyn Write) {
                 if m == "seq" && o2 == "sys-pre" && o == "sys-task" {
                     m = "race";
                 }
-                stops.push((o2, *rng.pick(&[0, 9, 1]), m));
+                stops.push((o2, *rng.pick(&[0, 9, 1, 70000]), m));
             }
             if stops.len() == 2 && rng.chance(1, 3) {
                 // a third stop
@@ -2662,6 +2684,7 @@ fn gen_c09(a: &Args, w: &mut dyn Write) {
     writeln!(w, "case bad3\narb running\nstop sys-pre 0\ngo code j=0").unwrap();
     writeln!(w, "case bad4 c09\nalign 0\narb done\nalign 1\nalign x\nalign 0\nalign 0\narb running\nstop arb:0 1\nstop foreign 1\nalign 0\ngo code j=2").unwrap();
     writeln!(w, "case bad5 c09 rt=custom\narb running\nbatch\nbatch foreign s1\nbatch sys-pre\nbatch sys-pre seq\nbatch arb:1 s1\nbatch sys-pre s1 nx\nbatch sys-pre sx\nbatch sys-pre s1 s2 s3 s4 s5 s6\nbatch sys-pre nr nr nr\nbatch sys-pre nr seq race\nbatch sys-pre nr\ngo code j=1\nbatch sys-task s1\nstop sys-task 1\nstop sys-pre 2 seq\nstop sys-pre 3 race\nstop foreign 4\ngo code j=3").unwrap();
+    writeln!(w, "case bad7 c09\nstop foreign 2147483648\nstop foreign -2147483649\nstop foreign 12345678901\nstop foreign --1\nstop foreign -\nbatch sys-pre s2147483648\nstop foreign -2147483648\nstop foreign 2147483647\ngo code j=8").unwrap();
     writeln!(w, "case bad6 c09\narb running\nalign 0\nbatch sys-pre s1 nr\nbatch sys-pre s1 s-2\nbatch sys-pre s2\nstop sys-task 5\nstop sys-pre 6 race\nstop sys-pre 7\ngo run j=4").unwrap();
 }
 
